@@ -224,3 +224,37 @@ Fixpoint py_combs {A} (k : nat) (l : list A) : list (list A) :=
   end.
 Definition py_combinations {A} (l : list A) (k : Z) : result (list (list A)) :=
   if (k <? 0)%Z then Err ValueError else Ok (py_combs (Z.to_nat k) l).
+
+(* s * n *)
+Definition py_str_repeat (s : string) (n : Z) : string :=
+  (fix go (k : nat) : string := match k with O => EmptyString | S k' => (s ++ go k')%string end) (Z.to_nat n).
+
+(* xml.sax.saxutils.escape(s), and escape(s, quot) with the extra entity for the double quote *)
+Fixpoint py_xml_escape (quot : bool) (s : string) : string :=
+  match s with
+  | EmptyString => EmptyString
+  | String c r =>
+      ((if Ascii.eqb c "&" then "&amp;"
+        else if Ascii.eqb c "<" then "&lt;"
+        else if Ascii.eqb c ">" then "&gt;"
+        else if quot && Ascii.eqb c """" then "&quot;"
+        else String c EmptyString) ++ py_xml_escape quot r)%string
+  end.
+
+(* str(v) / repr(v) of a JSON-like value: strings are quoted inside containers only *)
+Fixpoint aval_repr (v : aval) : string :=
+  match v with
+  | VNone => "None" | VBool true => "True" | VBool false => "False" | VInt z => z_to_string z
+  | VFloat r => r | VStr s => ("'" ++ s ++ "'")%string
+  | VList l => ("[" ++ str_join ", " (map aval_repr l) ++ "]")%string
+  | VMap _ => "{...}"
+  end.
+Definition aval_str (v : aval) : string := match v with VStr s => s | _ => aval_repr v end.
+
+(* math.isfinite of a float given by its repr: finite exactly when the positional spelling exists *)
+Definition py_float_isfinite (r : string) : bool :=
+  match py_positional r with Some _ => true | None => false end.
+
+(* {k: v for ...}: later pairs overwrite earlier ones, the first insertion fixes the position *)
+Definition py_dict_of_pairs {K V} (eqb : K -> K -> bool) (l : list (K * V)) : list (K * V) :=
+  fold_left (fun d kv => py_dict_set eqb d (fst kv) (snd kv)) l [].
